@@ -39,6 +39,7 @@ static struct region {
 	char *lo, *hi;
 	size_t elem;
 	int atomic;
+	int swp; /* plain accesses are switch points too */
 } regions[VRT_MAXREG];
 static int nregions;
 
@@ -50,7 +51,7 @@ void vrt_clear_regions(void) { nregions = 0; }
 void vrt_region(const char *name, void *addr, size_t len, size_t elem, int atomic)
 {
 	if (nregions >= VRT_MAXREG) { fprintf(stderr, "vrt: too many regions\n"); exit(3); }
-	regions[nregions++] = (struct region){ name, addr, (char *)addr + len, elem ? elem : len, atomic };
+	regions[nregions++] = (struct region){ name, addr, (char *)addr + len, elem ? elem : len, atomic & 1, (atomic & 2) != 0 };
 }
 static struct region *find(const void *a)
 {
@@ -184,6 +185,7 @@ static void log_atomic(const char *op, const void *a, int size, int mo, long old
 	e->size = size;
 }
 
+static void switch_point(const char *op, const void *a);
 static void log_plain(char kind, const void *a, int size)
 {
 	if (cur < 0)
@@ -191,6 +193,17 @@ static void log_plain(char kind, const void *a, int size)
 	struct region *r = find(a);
 	if (!r)
 		return;
+	if (r->swp) {
+		switch_point(kind == 'R' ? "read" : "write", a);
+		vrt_ev_t *e = newev();
+		e->kind = kind;
+		e->op = kind == 'R' ? "read" : "write";
+		e->var = r->name;
+		e->idx = (int)(((char *)a - r->lo) / r->elem);
+		e->size = size;
+		e->sw = 1;
+		return;
+	}
 	/* coalesce with the previous identical event of this step */
 	if (nev > 0) {
 		vrt_ev_t *p = &evbuf[nev - 1];
